@@ -1,5 +1,6 @@
 (** Arithmetic automation setup shared by all proof files. *)
 From Coq Require Export ZArith NArith Lia ZifyBool ZifyN ZifyNat.
+From Krp Require Export Prelude.
 Ltac Zify.zify_post_hook ::= Z.div_mod_to_equations.
 Global Arguments N.add : simpl never.
 Global Arguments N.sub : simpl never.
@@ -11,3 +12,30 @@ Global Arguments N.leb : simpl never.
 Global Arguments N.ltb : simpl never.
 Global Arguments N.min : simpl never.
 Global Arguments N.max : simpl never.
+
+(** Inversion of monadic hypotheses [bind m f = Some x] / [check b; k = Some x]. *)
+Ltac inv_bind H :=
+  match type of H with
+  | bind ?m _ = Some _ =>
+      let a := fresh "a" in let Ha := fresh "E" in
+      destruct m as [a|] eqn:Ha; [cbn [bind] in H | discriminate H]
+  | match ?m with Some _ => _ | None => None end = Some _ =>
+      let a := fresh "a" in let Ha := fresh "E" in
+      destruct m as [a|] eqn:Ha; [|discriminate H]
+  | (if ?b then _ else None) = Some _ =>
+      let Hb := fresh "E" in destruct b eqn:Hb; [|discriminate H]
+  | (if ?b then None else _) = Some _ =>
+      let Hb := fresh "E" in destruct b eqn:Hb; [discriminate H|]
+  end.
+
+(** Named variants: [bind_inv H as x Hx] for [bind m f = Some _]; [check_inv H as Hb] for an [if]. *)
+Tactic Notation "bind_inv" hyp(H) "as" ident(a) ident(Ha) :=
+  match type of H with
+  | bind ?m _ = Some _ => destruct m as [a|] eqn:Ha; [cbn [bind] in H | discriminate H]
+  | match ?m with Some _ => _ | None => None end = Some _ => destruct m as [a|] eqn:Ha; [|discriminate H]
+  end.
+Tactic Notation "check_inv" hyp(H) "as" ident(Hb) :=
+  match type of H with
+  | (if ?b then _ else None) = Some _ => destruct b eqn:Hb; [|discriminate H]
+  | (if ?b then None else _) = Some _ => destruct b eqn:Hb; [discriminate H|]
+  end.
